@@ -1279,9 +1279,25 @@ def _is_int_const(t):
     return T.is_const(t) and isinstance(t[1], int) and not isinstance(t[1], bool)
 
 
-def bounds_of(t, facts):
-    """Inclusive integer bounds (lo, hi) for term t implied by comparison facts with constants."""
+def bounds_of(t, facts, _depth=0):
+    """Inclusive integer bounds (lo, hi) for term t implied by comparison facts with constants
+    (interval arithmetic through + and * by constants)."""
     lo = hi = None
+    if _is_int_const(t):
+        return t[1], t[1]
+    if T.is_op(t, 'ADD') and _depth < 6:
+        tl = th = 0
+        for x in t[2:]:
+            a, b = bounds_of(x, facts, _depth + 1)
+            tl = None if (tl is None or a is None) else tl + a
+            th = None if (th is None or b is None) else th + b
+        lo, hi = tl, th
+    elif T.is_op(t, 'MUL') and _depth < 6 and _is_int_const(t[2]) and t[2][1] >= 0:
+        a, b = bounds_of(t[3], facts, _depth + 1)
+        lo = None if a is None else a * t[2][1]
+        hi = None if b is None else b * t[2][1]
+    elif T.is_op(t, 'LEN'):
+        lo = 0
     for f in facts:
         neg = False
         g = f
